@@ -36,18 +36,25 @@ impl Iterator for Chars<'_> {
             return None;
         }
 
-        let width = utf8_width::get_width(self.bytes[self.pos]);
+        let byte = self.bytes[self.pos];
+        let width = utf8_width::get_width(byte);
         if width == 1 {
             self.pos += 1;
-            Some(Ok(self.bytes[self.pos - 1] as char))
+            Some(Ok(byte as char))
         } else {
-            let c = std::str::from_utf8(&self.bytes[self.pos..self.pos + width]);
-            if let Ok(chr) = c {
+            // The width is 0 for a byte that cannot start a sequence, and the sequence can be
+            // truncated or malformed: all of these yield the offending byte as an error item.
+            let chr = self
+                .bytes
+                .get(self.pos..self.pos + width)
+                .and_then(|sequence| std::str::from_utf8(sequence).ok())
+                .and_then(|sequence| sequence.chars().next());
+            if let Some(chr) = chr {
                 self.pos += width;
-                Some(Ok(chr.chars().next().unwrap()))
+                Some(Ok(chr))
             } else {
                 self.pos += 1;
-                Some(Err(self.bytes[self.pos]))
+                Some(Err(byte))
             }
         }
     }
